@@ -12,8 +12,8 @@ Decides the frame clause: no function reachable (resolved call graph: class-hier
 isinstance narrowing, callbacks) from a public non-constructor entry point -- synthesize_trials with every Gen,
 print_experiments, tabulate_experiments, save_experiments_csv, experiments_to_tuples, experiments_to_dicts,
 sample_mismatch_experiment (thorough: every function of main.__all__) -- contains a write site (attribute store,
-augmented store, del, subscript store, mutating container call, also through local aliases, loop elements and
-mutated parameters) whose receiver may be a Block and whose attribute is part of the block's design state.
+augmented store, del, subscript store, mutating container call, also through local aliases, loop elements,
+mutated parameters and attributes of helper objects that hold a block attribute's value) whose receiver may be a Block and whose attribute is part of the block's design state.
 Memo attributes named in the property (trial-count / variable-count / decode caches, continuous_factor_samples)
 and the idempotent diagnostic set `errors` (add only) are allowed, each with its reason.
 """
